@@ -327,12 +327,33 @@ def check_export(ctx, fail, coll, kind, item_texts, exported):
 
 
 # ---------------------------------------------------------------------------------------------------------------
-def build_whole_calendar(g, rng, n_objects):
+SHARED_TZID = "C14/Shared-Zone"      # defined anew, with other rules, by every whole calendar that uses it
+
+
+def two_zone_object(g, rng, uid, tzs):
+    """One recurring object whose master and overrides refer to DIFFERENT time zones (the second one is SHARED_TZID,
+    which earlier uploads of the same process defined with other rules)."""
+    kind = rng.choice(["VEVENT", "VEVENT", "VJOURNAL"])
+    tz_a = g.tzid()
+    tzs.setdefault(tz_a, g.vtimezone(tz_a))
+    tzs.setdefault(SHARED_TZID, g.vtimezone(SHARED_TZID))
+    master, (sd, st) = g.main_component(kind, uid, "tz", tz_a)
+    if not any(n == "RRULE" for _, n, _, _ in master[1]):
+        master = (master[0], master[1] + [(None, "RRULE", (), "FREQ=DAILY;COUNT=9")], master[2])
+    comps = [master]
+    for _ in range(rng.choice([1, 1, 2])):
+        ov, _ = g.main_component(kind, uid, "tz", SHARED_TZID, override_of=(g.date(), st))
+        comps.append(ov)
+    g.features["whole:two-zone-object"] += 1
+    return comps
+
+
+def build_whole_calendar(g, rng, n_objects, uids=None, two_zone=0):
     """A whole calendar as a client exports it: VCALENDAR(props, VTIMEZONE*, components of several UIDs)."""
     tzs, comps = collections.OrderedDict(), []
     shared = g.tzid()
     for i in range(n_objects):
-        uid = "w-%s-%d" % (g.ident(5), i)
+        uid = uids[i] if uids else "w-%s-%d" % (g.ident(5), i)
         t = g.cal_object(uid, tz=(shared if rng.random() < 0.6 else None))
         for s in t[2]:
             if s[0] == "VTIMEZONE":
@@ -340,11 +361,22 @@ def build_whole_calendar(g, rng, n_objects):
                 tzs.setdefault(tz, s)
             else:
                 comps.append(s)
+    for i in range(two_zone):
+        comps += two_zone_object(g, rng, "w2-%s-%d" % (g.ident(5), i), tzs)
     rng.shuffle(comps)
     props = [(None, "VERSION", (), "2.0"), (None, "PRODID", (), "-//verif//whole//EN")]
     if rng.random() < 0.5:
         props.append((None, "X-WR-CALNAME", (), g.esc(g.text(2, allow_nl=False) or "cal")))
-    return ("VCALENDAR", props, list(tzs.values()) + comps), tzs
+    zones = list(tzs.values())
+    rng.shuffle(zones)
+    return ("VCALENDAR", props, zones + comps), tzs
+
+
+# UIDs of one upload that map to the same file name unless the storage looks at what it has just written:
+# `u` is stored as u + suffix, and so would `u + suffix` itself
+def colliding_uids(g, rng, suffix):
+    u = "col-" + g.ident(5)
+    return rng.choice([[u, u + suffix], [u + suffix, u], [u, u + suffix.upper()], [u.upper() + suffix.upper(), u.upper(), u.upper() + suffix]])
 
 
 def _whole_collections(ctx, srv, g, HEADER, corr):
@@ -360,8 +392,17 @@ def _whole_collections(ctx, srv, g, HEADER, corr):
     from radicale import item as ritem
     from radicale.app import put as rput
     split_cases = []
-    for wi in range(ctx.n(12, 100)):
-        tree, tzs = build_whole_calendar(g, rng, rng.choice([1, 2, 3, 5, 8]))
+    n_whole = ctx.n(12, 100)
+    for wi in range(n_whole):
+        if wi % 6 == 1:
+            # UIDs that collide as file names
+            uids = colliding_uids(g, rng, ".ics") + ["w-%s" % g.ident(5)]
+            rng.shuffle(uids)
+            g.features["whole:colliding-uids"] += 1
+            tree, tzs = build_whole_calendar(g, rng, len(uids), uids=uids)
+        else:
+            # the first calendars always carry an object with two zones; SHARED_TZID is redefined every time
+            tree, tzs = build_whole_calendar(g, rng, rng.choice([1, 2, 3, 5, 8]), two_zone=(1 if wi < 4 or rng.random() < 0.4 else 0))
         text = g.render(tree, style=dict(eol="\r\n", fold=rng.choice(["none", "75", "tab"]), lower=False, quote_all=False))
         coll = "/u/whole%d/" % wi
         st, h, _ = srv.put(coll, text, CONTENT_TYPE="text/calendar")
@@ -428,7 +469,12 @@ def _whole_collections(ctx, srv, g, HEADER, corr):
 
     # address books: concatenated cards
     for wi in range(ctx.n(4, 30)):
-        cards = [g.card_object("wc-%s-%d" % (g.ident(4), i)) for i in range(rng.choice([1, 2, 5]))]
+        uids = ["wc-%s-%d" % (g.ident(4), i) for i in range(rng.choice([1, 2, 5]))]
+        if wi % 2 == 0:
+            uids += colliding_uids(g, rng, ".vcf")
+            rng.shuffle(uids) if wi % 4 == 0 else None
+            g.features["whole:colliding-uids"] += 1
+        cards = [g.card_object(u) for u in uids]
         text = "".join(g.render(c, style=dict(eol="\r\n", fold=rng.choice(["none", "75"]), lower=False, quote_all=False)) for c in cards)
         coll = "/u/wab%d/" % wi
         st, h, _ = srv.put(coll, text, CONTENT_TYPE="text/vcard")
@@ -438,6 +484,10 @@ def _whole_collections(ctx, srv, g, HEADER, corr):
             ctx.count("refused-main-grammar")
             continue
         exported = srv.request("GET", coll)[2].decode("utf-8")
+        got_uids = sorted(X.unescape_text(v) for t in X.parse_tree(exported) for _, n_, _, v in t[1] if n_ == "UID")
+        if got_uids != sorted(uids):
+            fail("whole-ab-set", "address-book upload then download: %d cards uploaded, UIDs %s come back" % (len(uids), got_uids),
+                 dict(step="PUT whole address book then GET it", path=coll, upload=text, exported=exported, uploaded_uids=uids))
         if X.expected_facts(text) != X.facts(exported):
             fail("whole-ab", "address-book upload then download changes the cards: %s" % json_short(X.diff_facts(X.expected_facts(text), X.facts(exported))),
                  dict(step="PUT whole address book then GET it", path=coll, upload=text, exported=exported))
